@@ -211,7 +211,10 @@ def run_batch(pid, seed, tier, indices, jobs, isolated=False):
     ctx = mp.get_context("fork")
     q = ctx.Queue()
     jobs = max(1, min(jobs, len(indices)))
-    slices = [indices[i::jobs] for i in range(jobs)]
+    # families are assigned by index modulo their total weight: a plain stride would hand every
+    # plan of one (possibly expensive) family to the same few workers. Spread by a fixed permutation.
+    spread = sorted(indices, key=lambda i: ((i + 1) * 0x9E3779B97F4A7C15) & 0xFFFFFFFFFFFFFFFF)
+    slices = [sorted(spread[i::jobs]) for i in range(jobs)]
     cur = ctx.Array("q", [-1] * jobs, lock=False)
     beat = ctx.Array("d", [time.time()] * jobs, lock=False)
     procs = {}
